@@ -1,5 +1,328 @@
-(* C20 — stub, replaced below *)
-From WK Require Import Base.Base Model.HashSlot.
+(* C20 — The hash-slot table assigns every hash slot to exactly one slot.
+   Statements only; each is closed by [exact] of a lemma from Proof/HashSlot_*.v.
+   Model: Model/HashSlot.v (pkg/hashslot hashslottable.go + rebalancer.go). *)
+From WK Require Import Base.Base Base.Bytes Gen.Consts_C20 Model.HashSlot.
+From WK Require Import Proof.HashSlot_table Proof.HashSlot_codec Proof.HashSlot_lists Proof.HashSlot_plan
+                       Proof.HashSlot_balance Proof.HashSlot_monitor.
 Open Scope N_scope.
-Example c20_stub : t_version (new_hash_slot_table 4 2) = 1.
+
+(* ---- clause 1: every hash slot maps to exactly one slot ------------------------------------------- *)
+
+(* Lookup is a total function: the assignment entry below the count, 0 ("no slot") beyond *)
+Theorem c20_total_function : forall t hs, wf t ->
+  (hs < t_count t -> lookup t hs = nth (N.to_nat hs) (t_assign t) 0) /\
+  (t_count t <= hs -> lookup t hs = 0).
+Proof. exact lookup_total. Qed.
+Print Assumptions c20_total_function.
+
+(* HashSlotsOf partitions the hash slots by owner: hs is listed for s exactly when Lookup(hs) = s *)
+Theorem c20_owner_partition : forall t s hs, wf t ->
+  (In hs (hash_slots_of t s) <-> hs < t_count t /\ lookup t hs = s).
+Proof. exact hash_slots_of_spec. Qed.
+Print Assumptions c20_owner_partition.
+
+(* len(assignment) = HashSlotCount holds initially and after every operation (decoding included) *)
+Theorem c20_wf_preserved : forall count phys, wf (new_hash_slot_table count phys).
+Proof. exact new_wf. Qed.
+Print Assumptions c20_wf_preserved.
+Theorem c20_wf_step : forall t o, wf t -> wf (snd (model_step t o)).
+Proof. exact model_step_wf. Qed.
+Print Assumptions c20_wf_step.
+
+(* an initial layout with at least one physical slot maps every hash slot to a physical
+   (non-zero) slot, and reassignment to a physical slot, the migration life cycle and
+   applied plans keep it so *)
+Theorem c20_physical_initial : forall count phys, (1 <= phys)%Z ->
+  fully_assigned (new_hash_slot_table count phys).
+Proof. exact new_fully_assigned. Qed.
+Print Assumptions c20_physical_initial.
+Theorem c20_physical_preserved : forall t, fully_assigned t ->
+  (forall hs s, s <> 0 -> fully_assigned (reassign t hs s))
+  /\ (forall hs a b, fully_assigned (start_migration t hs a b))
+  /\ (forall hs ph, fully_assigned (advance_migration t hs ph))
+  /\ (forall hs, fully_assigned (finalize_migration t hs))
+  /\ (forall hs, fully_assigned (abort_migration t hs))
+  /\ (forall p, Forall (fun m => mv_to m <> 0) p -> fully_assigned (apply_plan t p)).
+Proof.
+  intros t H. split; [intros; apply reassign_fully; assumption|]. split; [intros; apply start_fully; assumption|].
+  split; [intros; apply advance_fully; assumption|]. split; [intros; apply finalize_fully; assumption|].
+  split; [intros; apply abort_fully; assumption|intros; apply apply_plan_fully; assumption].
+Qed.
+Print Assumptions c20_physical_preserved.
+
+(* ---- clause 2: encode / decode ------------------------------------------------------------------ *)
+
+(* DecodeHashSlotTable(Encode(t)) = t, active migrations included, for every table whose
+   fields fit their wire widths and whose migrations belong to hash slots of the table *)
+Theorem c20_codec_roundtrip : forall t, codec_ok t -> decode_hash_slot_table (encode t) = Some t.
+Proof. exact decode_encode. Qed.
+Print Assumptions c20_codec_roundtrip.
+
+(* ... which is every table reachable from an initial layout: [codec_ok] holds for
+   NewHashSlotTable and is preserved by each mutator *)
+Theorem c20_codec_ok_initial : forall count phys, count < 256 ^ 2 -> codec_ok (new_hash_slot_table count phys).
+Proof. exact new_codec_ok. Qed.
+Print Assumptions c20_codec_ok_initial.
+Theorem c20_codec_ok_preserved : forall t, codec_ok t ->
+  (forall hs s, u64 s -> codec_ok (reassign t hs s))
+  /\ (forall hs a b, u64 a -> u64 b -> codec_ok (start_migration t hs a b))
+  /\ (forall hs ph, ph < 256 -> codec_ok (advance_migration t hs ph))
+  /\ (forall hs, codec_ok (finalize_migration t hs))
+  /\ (forall hs, codec_ok (abort_migration t hs))
+  /\ (forall p, Forall (fun m => u64 (mv_to m)) p -> codec_ok (apply_plan t p)).
+Proof.
+  intros t H. split; [intros; apply reassign_codec_ok; assumption|]. split; [intros; apply start_codec_ok; assumption|].
+  split; [intros; apply advance_codec_ok; assumption|]. split; [intros; apply finalize_codec_ok; assumption|].
+  split; [intros; apply abort_codec_ok; assumption|intros; apply apply_plan_codec_ok; assumption].
+Qed.
+Print Assumptions c20_codec_ok_preserved.
+
+(* ---- clause 3: the version ------------------------------------------------------------------------ *)
+
+(* every mutator either leaves the table untouched or bumps the version by one (uint64)
+   and changes the assignment or the migration set *)
+Theorem c20_version_effect : forall t,
+  (forall hs s, effect t (reassign t hs s))
+  /\ (forall hs a b, effect t (start_migration t hs a b))
+  /\ (forall hs ph, effect t (advance_migration t hs ph))
+  /\ (forall hs, effect t (finalize_migration t hs))
+  /\ (forall hs, effect t (abort_migration t hs)).
+Proof.
+  intro t. split; [intros; apply reassign_effect|]. split; [intros; apply start_effect|].
+  split; [intros; apply advance_effect|]. split; [intros; apply finalize_effect|intros; apply abort_effect].
+Qed.
+Print Assumptions c20_version_effect.
+
+(* hence the version strictly increases on every effective change (below the uint64 wrap) *)
+Theorem c20_version_strict : forall t t', effect t t' -> t_version t < u64max -> t' <> t ->
+  t_version t < t_version t'.
+Proof. exact effect_version_strict. Qed.
+Print Assumptions c20_version_strict.
+
+(* an applied plan: never decreases, strictly increases when the table changes *)
+Theorem c20_version_plan : forall p t, t_version t + N.of_nat (length p) < u64max ->
+  t_version t <= t_version (apply_plan t p) <= t_version t + N.of_nat (length p)
+  /\ (apply_plan t p <> t -> t_version t < t_version (apply_plan t p))
+  /\ t_migs (apply_plan t p) = t_migs t.
+Proof. exact apply_plan_version. Qed.
+Print Assumptions c20_version_plan.
+
+(* ---- clause 4: plans move each hash slot at most once, away from its current owner ------------- *)
+
+Theorem c20_plan_moves_once : forall t, wf t ->
+  (forall n, moves_ok t (compute_add_slot_plan t n) = true)
+  /\ (forall x, moves_ok t (compute_remove_slot_plan t x) = true)
+  /\ moves_ok t (compute_rebalance_plan t) = true.
+Proof.
+  intros t W. split; [|split].
+  - intro n. destruct (add_plan_struct t n W) as [F [ND _]]. exact (moves_ok_of t _ _ W F ND).
+  - intro x. destruct (remove_plan_struct t x W) as [F [ND _]]. exact (moves_ok_of t _ _ W F ND).
+  - destruct (rebalance_plan_struct t W) as [F [ND _]]. exact (moves_ok_of t _ _ W F ND).
+Qed.
+Print Assumptions c20_plan_moves_once.
+
+(* in more detail: source = current owner, target a different, non-zero participating slot,
+   no hash slot twice, at most one move per hash slot of the table *)
+Theorem c20_plan_structure : forall t, wf t ->
+  (forall n, Forall (move_ok (t_assign t) (n :: active_slot_ids t)) (compute_add_slot_plan t n)
+             /\ NoDup (map mv_hs (compute_add_slot_plan t n)))
+  /\ (forall x, Forall (move_ok (t_assign t) (active_slot_ids t)) (compute_remove_slot_plan t x)
+                /\ NoDup (map mv_hs (compute_remove_slot_plan t x)))
+  /\ (Forall (move_ok (t_assign t) (active_slot_ids t)) (compute_rebalance_plan t)
+      /\ NoDup (map mv_hs (compute_rebalance_plan t))).
+Proof.
+  intros t W. split; [|split].
+  - intro n. destruct (add_plan_struct t n W) as [F [ND _]]. split; assumption.
+  - intro x. destruct (remove_plan_struct t x W) as [F [ND _]]. split; assumption.
+  - destruct (rebalance_plan_struct t W) as [F [ND _]]. split; assumption.
+Qed.
+Print Assumptions c20_plan_structure.
+
+(* applying a plan = updating the assignment entry of each move *)
+Theorem c20_apply_plan : forall p t, t_assign (apply_plan t p) = apply_moves p (t_assign t).
+Proof. exact apply_plan_assign. Qed.
+Print Assumptions c20_apply_plan.
+
+(* ---- clause 5: balance ------------------------------------------------------------------------------ *)
+
+(* idealSlotCounts is the specification's ideal share *)
+Theorem c20_ideal_spec : forall total slots s, NoDup slots -> In s slots ->
+  aget 0 (ideal_slot_counts total slots) s = spec_ideal total slots s.
+Proof. exact ideal_slot_counts_spec. Qed.
+Print Assumptions c20_ideal_spec.
+
+(* rebalance: for ANY table that maps every hash slot to a physical slot, every active slot
+   ends with exactly its ideal share (hence any two differ by at most one) *)
+Theorem c20_rebalance_exact : forall t, wf t -> nzl (t_assign t) ->
+  forall s, In s (active_slot_ids t) ->
+    cnt (apply_moves (compute_rebalance_plan t) (t_assign t)) s = spec_ideal (t_count t) (active_slot_ids t) s.
+Proof. exact rebalance_exact. Qed.
+Print Assumptions c20_rebalance_exact.
+
+(* add: the new slot gets exactly its ideal share; a donor is never taken below its ideal
+   share and a slot at or below it is untouched (c20_never_cross_ideal, add half); a table
+   within one of ideal stays within one *)
+Theorem c20_add_balanced : forall t n, wf t -> nzl (t_assign t) -> n <> 0 -> ~ In n (active_slot_ids t) ->
+  let E := active_slot_ids t in
+  let parts := n :: E in
+  let post := apply_moves (compute_add_slot_plan t n) (t_assign t) in
+  cnt post n = spec_ideal (t_count t) parts n
+  /\ (forall s, In s E ->
+        (cnt (t_assign t) s <= spec_ideal (t_count t) parts s -> cnt post s = cnt (t_assign t) s)
+        /\ (spec_ideal (t_count t) parts s <= cnt (t_assign t) s ->
+            spec_ideal (t_count t) parts s <= cnt post s <= cnt (t_assign t) s))
+  /\ (balanced (t_count t) (t_assign t) E = true -> balanced (t_count t) post parts = true).
+Proof. exact add_plan_result. Qed.
+Print Assumptions c20_add_balanced.
+
+(* remove: the removed slot ends empty; a receiver is never filled above its ideal share and
+   a slot at or above it is untouched (c20_never_cross_ideal, remove half); on a table within
+   one of ideal no remaining slot ends more than one ABOVE its ideal share.
+   The full statement (... within one of its ideal share) is FALSE: c20_remove_balanced_refuted. *)
+Theorem c20_remove_balanced_partial : forall t x, wf t -> nzl (t_assign t) -> In x (active_slot_ids t) ->
+  active_slot_ids_excluding t x <> [] ->
+  let A := active_slot_ids t in
+  let R := active_slot_ids_excluding t x in
+  let post := apply_moves (compute_remove_slot_plan t x) (t_assign t) in
+  cnt post x = 0
+  /\ (forall s, In s R ->
+        (spec_ideal (t_count t) R s <= cnt (t_assign t) s -> cnt post s = cnt (t_assign t) s)
+        /\ (cnt (t_assign t) s <= spec_ideal (t_count t) R s ->
+            cnt (t_assign t) s <= cnt post s <= spec_ideal (t_count t) R s))
+  /\ (balanced (t_count t) (t_assign t) A = true -> not_over (t_count t) post R = true).
+Proof. exact remove_plan_result. Qed.
+Print Assumptions c20_remove_balanced_partial.
+
+(* ---- the balance clause is false beyond that: witnesses replayed on the real code ---------------- *)
+
+Definition tbl_of (assign : list N) : table := Tbl 1 (N.of_nat (length assign)) assign [].
+
+(* F6 / known finding C20-K1: 12 hash slots, slot 1 holds 10, slot 2 holds 2, add slot 3:
+   slot 1 is left with 6, its ideal share is 4.  corpus/C20/K1_add_unbalanced_F6.json *)
+Definition f6_table : table := tbl_of [1;1;1;1;1;1;1;1;1;1;2;2].
+Theorem c20_add_unbalanced_refuted :
+  exists t n, wf t /\ all_nz (t_assign t) = true /\ n <> 0 /\ ~ In n (active_slot_ids t)
+    /\ balanced (t_count t) (apply_moves (compute_add_slot_plan t n) (t_assign t)) (n :: active_slot_ids t) = false
+    /\ cnt (apply_moves (compute_add_slot_plan t n) (t_assign t)) 1 = 6
+    /\ spec_ideal (t_count t) (n :: active_slot_ids t) 1 = 4
+    /\ plan_code t (PAdd n) (compute_add_slot_plan t n) = 2.
+Proof.
+  exists f6_table, 3. split; [reflexivity|]. split; [reflexivity|]. split; [discriminate|].
+  split; [vm_compute; intros [H|[H|[]]]; discriminate|]. repeat split; vm_compute; reflexivity.
+Qed.
+Print Assumptions c20_add_unbalanced_refuted.
+
+(* C20-K1, remove analogue: 7 hash slots held 1/1/5, remove slot 1.  corpus/C20/K1_remove_unbalanced.json *)
+Theorem c20_remove_unbalanced_refuted :
+  exists t x, wf t /\ all_nz (t_assign t) = true /\ In x (active_slot_ids t)
+    /\ balanced (t_count t) (apply_moves (compute_remove_slot_plan t x) (t_assign t)) (active_slot_ids_excluding t x) = false
+    /\ plan_code t (PRemove x) (compute_remove_slot_plan t x) = 2.
+Proof.
+  exists (tbl_of [1;2;3;3;3;3;3]), 1. split; [reflexivity|]. split; [reflexivity|].
+  split; [vm_compute; left; reflexivity|]. split; vm_compute; reflexivity.
+Qed.
+Print Assumptions c20_remove_unbalanced_refuted.
+
+(* C20-K2 (new): 12 hash slots held 1/1/1/3/3/3 by slots 1..6 — every slot within one of its
+   ideal share 2 — remove slot 1: slot 3 is left with 1, its new ideal share is 3.
+   corpus/C20/K2_remove_within_one.json *)
+Definition k2_table : table := tbl_of [1;2;3;4;4;4;5;5;5;6;6;6].
+Theorem c20_remove_balanced_refuted :
+  exists t x, wf t /\ all_nz (t_assign t) = true /\ In x (active_slot_ids t)
+    /\ balanced (t_count t) (t_assign t) (active_slot_ids t) = true
+    /\ balanced (t_count t) (apply_moves (compute_remove_slot_plan t x) (t_assign t)) (active_slot_ids_excluding t x) = false
+    /\ cnt (apply_moves (compute_remove_slot_plan t x) (t_assign t)) 3 = 1
+    /\ spec_ideal (t_count t) (active_slot_ids_excluding t x) 3 = 3
+    /\ plan_code t (PRemove x) (compute_remove_slot_plan t x) = 3.
+Proof.
+  exists k2_table, 1. split; [reflexivity|]. split; [reflexivity|].
+  split; [vm_compute; left; reflexivity|]. repeat split; vm_compute; reflexivity.
+Qed.
+Print Assumptions c20_remove_balanced_refuted.
+
+(* ---- the monitor ------------------------------------------------------------------------------------- *)
+
+(* what the monitor's balance classification can be on the model's own plans:
+   rebalance always 0; add 0 or 2, and 0 on a within-one input; remove 0, 2 or 3,
+   2 only on an input that is not within one (C20-K1), 3 only on one that is (C20-K2) *)
+Theorem c20_plan_codes : forall t, wf t ->
+  plan_code t PRebalance (compute_rebalance_plan t) = 0
+  /\ (forall n, let c := plan_code t (PAdd n) (compute_add_slot_plan t n) in
+        (c = 0 \/ c = 2)
+        /\ (balanced (t_count t) (t_assign t) (distinct_nz (t_assign t)) = true -> c = 0))
+  /\ (forall x, let c := plan_code t (PRemove x) (compute_remove_slot_plan t x) in
+        (c = 0 \/ c = 2 \/ c = 3)
+        /\ (c = 2 -> balanced (t_count t) (t_assign t) (distinct_nz (t_assign t)) = false)
+        /\ (c = 3 -> balanced (t_count t) (t_assign t) (distinct_nz (t_assign t)) = true)).
+Proof.
+  intros t W. split; [apply plan_code_rebalance; exact W|].
+  split; [intro n; apply plan_code_add; exact W|intro x; apply plan_code_remove; exact W].
+Qed.
+Print Assumptions c20_plan_codes.
+
+(* one model step under the monitor: code 0, except that an add / remove plan is
+   classified by [plan_code] (previous theorem); the invariants carry over *)
+Theorem c20_step_monitor : forall t o, codec_ok t -> t_version t + step_budget < ver_small -> op_ok o ->
+  let t' := snd (model_step t o) in
+  codec_ok t' /\ t_version t' <= t_version t + step_budget
+  /\ step_code t (mstep t o) =
+     match o with
+     | OAdd n _ => plan_code t (PAdd n) (compute_add_slot_plan t n)
+     | ORemove x _ => plan_code t (PRemove x) (compute_remove_slot_plan t x)
+     | _ => 0
+     end.
+Proof. exact step_code_model. Qed.
+Print Assumptions c20_step_monitor.
+
+(* the monitor never reports a violation (1) on a trace of the model started from an
+   initial layout, and reports 0 when the history has no add / remove plan; codes 2 / 3
+   arise only from the two findings above *)
+Theorem c20_model_satisfies_monitor : forall count phys ops, count < 65536 -> Forall op_ok ops ->
+  1 + step_budget * N.of_nat (length ops) < ver_small ->
+  let c := C20_monitor (C20Case count phys (new_hash_slot_table count phys)
+                                (model_trace (new_hash_slot_table count phys) ops)) in
+  c <> 1 /\ (forallb (fun o => negb (is_add_remove o)) ops = true -> c = 0).
+Proof. exact model_satisfies_monitor. Qed.
+Print Assumptions c20_model_satisfies_monitor.
+
+(* ---- pkg/controller/state: BuildInitialHashSlotTable = NewHashSlotTable's layout ------------------ *)
+
+Theorem c20_initial_layout_agrees : forall slots count c rs,
+  build_initial_hash_slot_table slots count = Some (c, rs) ->
+  c = count /\ expand_ranges rs = t_assign (new_hash_slot_table count (Z.of_N slots)).
+Proof. exact initial_layout_agrees. Qed.
+Print Assumptions c20_initial_layout_agrees.
+
+(* ---- non-vacuity ------------------------------------------------------------------------------------- *)
+
+(* a balanced add (hypotheses of c20_add_balanced satisfiable, monitor code 0) *)
+Example c20_example_add :
+  let t := new_hash_slot_table 12 3 in
+  wf t /\ all_nz (t_assign t) = true /\ ~ In 4 (active_slot_ids t)
+  /\ balanced (t_count t) (t_assign t) (active_slot_ids t) = true
+  /\ compute_add_slot_plan t 4 = [Move 3 1 4; Move 7 2 4; Move 11 3 4]
+  /\ plan_code t (PAdd 4) (compute_add_slot_plan t 4) = 0.
+Proof.
+  cbn zeta. split; [reflexivity|]. split; [reflexivity|].
+  split; [vm_compute; intros [H|[H|[H|[]]]]; discriminate|]. repeat split; vm_compute; reflexivity.
+Qed.
+
+(* a table with an active migration survives the codec; the version moved *)
+Example c20_example_codec :
+  let t := advance_migration (start_migration (new_hash_slot_table 4 2) 1 1 2) 1 PhaseDelta in
+  t_version t = 3 /\ t_migs t = [Mig 1 1 2 1]
+  /\ decode_hash_slot_table (encode t) = Some t /\ N.of_nat (length (encode t)) = 12 + 4 * 8 + 2 + 20.
+Proof. cbn zeta. repeat split; vm_compute; reflexivity. Qed.
+
+(* a model trace with migrations, a codec round trip and all three planners: monitor 0 *)
+Example c20_example_trace :
+  C20_monitor (C20Case 12 3 (new_hash_slot_table 12 3)
+     (model_trace (new_hash_slot_table 12 3)
+        [OStart 0 1 2; OAdvance 0 2; OEncDec; OFinalize 0; OAdd 4 true; ORemove 2 true; ORebalance true; OLookup 3])) = 0.
 Proof. vm_compute. reflexivity. Qed.
+
+(* the wire layout constants regenerated from the code agree with the model's encoder *)
+Example c20_example_layout :
+  N.of_nat (length (encode (new_hash_slot_table 1 1))) = enc_len_1_0
+  /\ N.of_nat (length (encode (start_migration (new_hash_slot_table 1 1) 0 1 2))) = enc_len_1_1.
+Proof. split; vm_compute; reflexivity. Qed.
